@@ -11,7 +11,11 @@
                 default never follows one with a default)
      AddActual  appends one actual to the call (only what the grammar of calls allows: no
                 positional after a keyword or a **mapping, no *iterable after a **mapping, no
-                explicit keyword twice)
+                explicit keyword twice).  With WithUnknown the alphabet also has actuals whose
+                CONTENT is not known statically: `*list` (any length) and `**dict` (any keys), at most
+                MaxUnknown of them per call.  Such a call stands for all its concretisations and the
+                rule gives a quantified verdict: it binds for ALL contents (mypy must accept), it
+                raises TypeError for ALL contents (mypy must reject), or it depends (no claim).
    The i-th parameter is called Names[i]; keywords / TypedDict keys range over Names plus one
    name no signature has.  All values are indistinguishable (the property is about binding only).
 
@@ -64,17 +68,24 @@ SigSeq == SetToSeq(Sigs)
 \* ------------------------------------------------------------------ calls
 Act(k, n, l, ks) == [k |-> k, n |-> n, l |-> l, ks |-> ks]
 KeySets == {ks \in SUBSET CallNames : Cardinality(ks) <= MaxTD}
+\* actuals of statically unknown content ("L" = *list[int], "M" = **dict[str, int]); a configuration
+\* switches them on by overriding WithUnknown (configurations of other checks keep the plain alphabet)
+WithUnknown == FALSE
+MaxUnknown == 2
 Actuals == {Act("P", "", 0, {})}
            \cup {Act("K", n, 0, {}) : n \in CallNames}
            \cup {Act("S", "", l, {}) : l \in 0..MaxStar}
            \cup {Act("D", "", 0, ks) : ks \in KeySets}
+           \cup (IF WithUnknown THEN {Act("L", "", 0, {}), Act("M", "", 0, {})} ELSE {})
 SeenKw(c) == \E i \in DOMAIN c : c[i].k = "K"
-SeenD(c) == \E i \in DOMAIN c : c[i].k = "D"
+SeenD(c) == \E i \in DOMAIN c : c[i].k \in {"D", "M"}
+NUnknown(c) == Cardinality({i \in DOMAIN c : c[i].k \in {"L", "M"}})
 AllowedActual(c) ==
   { a \in Actuals :
       /\ (a.k = "P" => ~SeenKw(c) /\ ~SeenD(c))     \* SyntaxError: positional argument follows keyword argument [unpacking]
-      /\ (a.k = "S" => ~SeenD(c))                    \* SyntaxError: iterable argument unpacking follows keyword argument unpacking
-      /\ (a.k = "K" => \A i \in DOMAIN c : ~(c[i].k = "K" /\ c[i].n = a.n)) }  \* SyntaxError: keyword argument repeated
+      /\ (a.k \in {"S", "L"} => ~SeenD(c))           \* SyntaxError: iterable argument unpacking follows keyword argument unpacking
+      /\ (a.k = "K" => \A i \in DOMAIN c : ~(c[i].k = "K" /\ c[i].n = a.n))   \* SyntaxError: keyword argument repeated
+      /\ (a.k \in {"L", "M"} => NUnknown(c) < MaxUnknown) }
 
 \* ------------------------------------------------------------------ the binding rule
 RECURSIVE SumSeq(_)
@@ -114,6 +125,31 @@ ErrorsU(s, u) == B(ErrDupKw(s, u), 1) + B(ErrTooMany(s, u), 2) + B(ErrMultiple(s
 Errors(s, c) == ErrorsU(s, Supplied(c))
 Binds(s, c) == Errors(s, c) = 0
 
+\* ---- calls with actuals of unknown content: everything such a call can supply.
+\* A *list contributes 0 .. NPos+1 positional values (more make no difference), a **dict any set of
+\* keywords; per name only "not given / once / more than once" matters.
+Cap(n, m) == IF n > m THEN m ELSE n
+SupplyOf(a) ==      \* what one actual can contribute: [ng, kw] with kw the set of names it supplies
+  CASE a.k = "P" -> {[ng |-> 1, kw |-> {}]}
+    [] a.k = "K" -> {[ng |-> 0, kw |-> {a.n}]}
+    [] a.k = "S" -> {[ng |-> a.l, kw |-> {}]}
+    [] a.k = "D" -> {[ng |-> 0, kw |-> a.ks]}
+    [] a.k = "L" -> {[ng |-> n, kw |-> {}] : n \in 0..(NP + 1)}
+    [] a.k = "M" -> {[ng |-> 0, kw |-> ks] : ks \in SUBSET CallNames}
+RECURSIVE SupplySet(_)
+SupplySet(c) ==     \* summaries [ng, once, twice] of all concretisations of c
+  IF c = <<>> THEN {[ng |-> 0, once |-> {}, twice |-> {}]}
+  ELSE LET n == Len(c)
+           rest == SupplySet(SubSeq(c, 1, n - 1))
+       IN {[ng |-> Cap(u.ng + o.ng, NP + 1),
+            once |-> u.once \cup o.kw,
+            twice |-> u.twice \cup (u.once \cap o.kw)] : u \in rest, o \in SupplyOf(c[n])}
+AsSupplied(x) == [ng |-> x.ng, kw |-> x.once, dup |-> x.twice # {}]
+\* 0 = binds whatever the contents, 1 = raises TypeError whatever the contents, 2 = depends on the contents
+Quantified(s, c) == LET us == {AsSupplied(x) : x \in SupplySet(c)}
+                    IN IF \A u \in us : ErrorsU(s, u) = 0 THEN 0
+                       ELSE IF \A u \in us : ErrorsU(s, u) # 0 THEN 1 ELSE 2
+
 \* ------------------------------------------------------------------ behaviour
 Init == sig = <<>> /\ call = <<>> /\ phase = "start"
 AddParam == /\ GenSigs /\ phase \in {"start", "sig"} /\ Len(sig) < NP
@@ -147,8 +183,17 @@ DefaultsRelax == LET u == Supplied(call) IN
 \* without *args a bound call never supplies more positional values than there are positional slots
 ArityMonotone == LET u == Supplied(call) IN \A s \in Sigs : (ErrorsU(s, u) = 0 /\ ~HasVA(s)) => u.ng <= NPos(s)
 
+\* the quantified verdict of a call without unknown content is its verdict, and "raises for all
+\* contents" in particular means that the all-empty contents raise
+QuantifiedAgrees == \A s \in Sigs : LET q == Quantified(s, call) IN
+                      /\ (NUnknown(call) = 0 => q = (IF Binds(s, call) THEN 0 ELSE 1))
+                      /\ (q = 1 => ~Binds(s, call))
+                      /\ (q = 0 => Binds(s, call))
+
 \* ------------------------------------------------------------------ emission (Gen configs)
 EmitSigs == phase = "start" => PrintT(<<"SIGS", ToJson(SigSeq)>>)
 EmitCall == phase \in {"start", "call"} =>
-              PrintT(<<"CALL", ToJson([c |-> call, v |-> LET u == Supplied(call) IN [i \in DOMAIN SigSeq |-> ErrorsU(SigSeq[i], u)]])>>)
+              PrintT(<<"CALL", ToJson([c |-> call,
+                                       v |-> LET u == Supplied(call) IN [i \in DOMAIN SigSeq |-> ErrorsU(SigSeq[i], u)],
+                                       q |-> [i \in DOMAIN SigSeq |-> Quantified(SigSeq[i], call)]])>>)
 =====================================================================
